@@ -45,6 +45,7 @@ type Exec struct {
 	ufCounter    int
 	EvalSamples  []string
 	orphans      []*State
+	inInit       bool
 }
 
 func NewExec(st *smt.Store, solver *smt.Solver, prog *ssa.Program, pkg *ssa.Package) *Exec {
@@ -81,7 +82,37 @@ func (ex *Exec) NewState(fn *ssa.Function) *State {
 
 // Run executes the harness entry to completion and returns all final states.
 func (ex *Exec) Run(fn *ssa.Function) []*State {
-	s := ex.NewState(fn)
+	// package-level variable initialisers of the package under test (and of
+	// the harness files overlaid into it) run first; initialisers of imported
+	// packages are not executed (their variables are only reached through
+	// modelled functions)
+	var s *State
+	if init := ex.Pkg.Func("init"); init != nil && len(init.Blocks) > 0 {
+		s = ex.NewState(init)
+		s.Prune = true
+		ex.inInit = true
+		outs := ex.runTo(s, 0, 1, nil)
+		ex.inInit = false
+		var live []*State
+		for _, o := range outs {
+			if o.Done && !o.Dead {
+				live = append(live, o)
+			}
+		}
+		if len(live) != 1 {
+			panic(unsupported(fmt.Sprintf("package initialisation produced %d states", len(live))))
+		}
+		s = live[0]
+		s.Done = false
+		s.Oblig = nil
+		s.Steps = 0
+		fr := &Frame{Fn: fn, Env: map[ssa.Value]Value{}}
+		s.Gs = []*Goroutine{{Stack: []*Frame{fr}, Name: "main"}}
+		s.Cur = 0
+		ex.enterBlock(s, fr, nil, fn.Blocks[0])
+	} else {
+		s = ex.NewState(fn)
+	}
 	ex.noteFunc(fn)
 	return ex.runTo(s, 0, 1, nil)
 }
@@ -262,7 +293,8 @@ func (ex *Exec) runTo(s *State, g int, depth int, stop *ssa.BasicBlock) []*State
 	if live > 1 {
 		var kept []*State
 		for _, o := range out {
-			if o.Dead || o.Prune || ex.feasible(o, ex.st.True) {
+			if o.Dead || o.Prune || (o.FeasLen == len(o.PC) && o.FeasLen > 0) || ex.feasible(o, ex.st.True) {
+				o.FeasLen = len(o.PC)
 				kept = append(kept, o)
 			} else {
 				ex.Stat.Pruned++
